@@ -82,6 +82,44 @@ static int calendar_switch_child(void) {
 	return res == KSI_OK;   /* must be an error */
 }
 
+/* calendar chains: real KSI_HashChain_aggregateCalendar vs. the reference with the algorithm rule
+ * (step algorithm = algorithm of the right-hand operand), all chains of 1..4 links over two algorithms */
+static const EVP_MD *md_of(int a) { return a == KSI_HASHALG_SHA2_512 ? EVP_sha512() : EVP_sha256(); }
+static size_t step_any(int a, const unsigned char *l, size_t ll, const unsigned char *r, size_t rl, unsigned char *out) {
+	EVP_MD_CTX *c = EVP_MD_CTX_new(); unsigned n = 0; unsigned char lvl = 0xff;
+	EVP_DigestInit_ex(c, md_of(a), NULL);
+	EVP_DigestUpdate(c, l, ll); EVP_DigestUpdate(c, r, rl); EVP_DigestUpdate(c, &lvl, 1);
+	out[0] = (unsigned char)a; EVP_DigestFinal_ex(c, out + 1, &n); EVP_MD_CTX_free(c);
+	return n + 1;
+}
+static int check_cal(int n, unsigned dirs, unsigned algs, int inAlg) {
+	int A[2] = { KSI_HASHALG_SHA2_256, KSI_HASHALG_SHA2_512 };
+	KSI_LIST(KSI_HashChainLink) *links = NULL; KSI_DataHash *in = NULL, *out = NULL; int i, res, bad = 0;
+	unsigned char dig[64], cur[80], sib[80], nxt[80]; size_t curl, sibl; int curAlg = A[inAlg];
+	const unsigned char *imp = NULL; size_t imp_len = 0;
+	memset(dig, 0xA5, sizeof(dig));
+	KSI_DataHash_fromDigest(ctx, curAlg, dig, KSI_getHashLength(curAlg), &in);
+	cur[0] = (unsigned char)curAlg; memcpy(cur + 1, dig, KSI_getHashLength(curAlg)); curl = 1 + KSI_getHashLength(curAlg);
+	KSI_HashChainLinkList_new(&links);
+	for (i = 0; i < n; i++) {
+		KSI_HashChainLink *l = NULL; KSI_DataHash *h = NULL; int sa = A[(algs >> i) & 1]; int left = (dirs >> i) & 1; int stepAlg;
+		memset(dig, 0x20 + i, sizeof(dig));
+		KSI_DataHash_fromDigest(ctx, sa, dig, KSI_getHashLength(sa), &h);
+		KSI_HashChainLink_new(ctx, &l); KSI_HashChainLink_setImprint(l, h); KSI_HashChainLink_setIsLeft(l, left); KSI_HashChainLinkList_append(links, l);
+		sib[0] = (unsigned char)sa; memcpy(sib + 1, dig, KSI_getHashLength(sa)); sibl = 1 + KSI_getHashLength(sa);
+		stepAlg = left ? sa : curAlg;                 /* algorithm of the right-hand operand */
+		if (left) curl = step_any(stepAlg, cur, curl, sib, sibl, nxt); else curl = step_any(stepAlg, sib, sibl, cur, curl, nxt);
+		memcpy(cur, nxt, curl); curAlg = stepAlg;
+	}
+	res = KSI_HashChain_aggregateCalendar(ctx, links, in, &out);
+	if (res != KSI_OK) bad = 1;
+	else { KSI_DataHash_getImprint(out, &imp, &imp_len); if (imp_len != curl || memcmp(imp, cur, curl)) bad = 1; }
+	if (bad) printf("calendar chain n=%d dirs(bit i = link i left)=0x%x sibling algorithms(bit i: 0 sha-256, 1 sha-512)=0x%x input algorithm=%s: real res=0x%x root differs from the reference (algorithm of the right-hand operand per step)\n",
+			n, dirs, algs, inAlg ? "sha-512" : "sha-256", res);
+	KSI_DataHash_free(out); KSI_DataHash_free(in); KSI_HashChainLinkList_free(links);
+	return bad;
+}
+
 int main(int argc, char **argv) {
 	unsigned long long cand[16]; int nc = 0, i, j, k, start; unsigned long long lcs[3]; pid_t pid; int st = 0;
 	int starts[6]; int ns = 0;
@@ -101,6 +139,10 @@ int main(int argc, char **argv) {
 	if (WIFEXITED(st) && WEXITSTATUS(st) == 1) RP_FAIL("calendar chain with an algorithm switch the hasher cannot open: memory error reported by the sanitizer (hasher freed twice)");
 	if (WIFEXITED(st) && WEXITSTATUS(st) == 3) RP_FAIL("calendar chain with unsupported algorithm accepted");
 	printf("calendar hasher life-cycle: no crash\n");
+	{ int n, ia; unsigned d, a;
+	  for (n = 1; n <= 4; n++) for (d = 0; d < (1u << n); d++) for (a = 0; a < (1u << n); a++) for (ia = 0; ia < 2; ia++)
+		if (check_cal(n, d, a, ia)) RP_FAIL("calendar chain root differs from the KSI chain formula (algorithm switching rule)");
+	  printf("calendar roots: no disagreement in the neighbourhood\n"); }
 	return 0;
 	}
 	for (k = 0; k < ns; k++) { start = starts[k];
